@@ -175,7 +175,41 @@ func runC18(c *Ctx) {
 	} else {
 		c.Unk("C18.H3-make-read-pairs", "ingest/model.IngestRequest › Domain and Codec", token.NoPos, "methods not found")
 	}
-	c.Floor("C18.H3-make-read-pairs", 4)
+	// what the constructor builds the reader accepts: the record's own decoding step rejects only what the decoder
+	// rejects (or a nil receiver) — it applies no acceptance test of its own that the constructor does not share
+	if ur := c.Func(modelPkg, "IngestRequest.UnmarshalRecord"); ur != nil {
+		okU := true
+		what := ""
+		for _, b := range ur.SSA.Blocks {
+			ret, ok := b.Instrs[len(b.Instrs)-1].(*ssa.Return)
+			if !ok || len(ret.Results) != 1 {
+				continue
+			}
+			for _, l := range c.LeavesF(c.RetX(ret, 0), ret) {
+				v := strip(l.Val)
+				switch {
+				case v.Op == "nil":
+				case v.Op == "call" && nameMatches(v.Name, "encoding/json.Unmarshal"):
+				case v.Op == "call" && (nameMatches(v.Name, "fmt.Errorf") || nameMatches(v.Name, "errors.New")):
+					g := false
+					for _, fct := range append(append([]Fact{}, l.Facts...), c.FactsAt(b)...) {
+						if _, m := Match(EqNil(Op("param", "")), fct.Cond); m && fct.Val {
+							g = true
+						}
+					}
+					if !g {
+						okU, what = false, c.pos(ret.Pos())
+					}
+				default:
+					okU, what = false, c.pos(ret.Pos())
+				}
+			}
+		}
+		c.Check(okU, "C18.H3-make-read-pairs", ur.Name+" › rejects only what the decoder rejects", ur.SSA.Pos(), "the record's decoding step returns the decoder's error (or refuses a nil receiver)", "the reader's decoding step rejects requests on a test of its own (at "+what+") that the constructor does not apply identically: a request built by the library's constructor can be refused by the library's reader")
+	} else {
+		c.Unk("C18.H3-make-read-pairs", "ingest/model.(*IngestRequest).UnmarshalRecord", token.NoPos, "not found")
+	}
+	c.Floor("C18.H3-make-read-pairs", 5)
 }
 
 // unstrip returns x (patterns strip asserts themselves; this keeps the extract/assert visible).
